@@ -9,5 +9,7 @@ def range_from_index(index: int | slice, length: int) -> range:
 
 
 def slice_from_range(r: range) -> slice:
+    if r.step < 0 and not r:
+        return slice(0, 0, r.step)
     stop = r.stop if r.stop != -1 else None
     return slice(r.start, stop, r.step)
